@@ -410,6 +410,40 @@ func (c *Ctx) ruleCondStores() {
 			rep.bad("R-CONDSTORE", "newCondition", "no error ahead of the expression", c.p.pos(fn.Pos()), strings.Join(uniq(problems), "; "))
 		}
 	}
+	// each of the three components is offered on every path, whatever became of the others: the
+	// reader of the wire format rebuilds partial Conditions (no operator, no keyword) through this
+	// constructor, and a setter history may complete an instance later
+	if fn := c.p.ByName["newCondition"]; fn != nil {
+		var problems []string
+		for _, setter := range []string{"(*condition).setKeyword", "(*condition).setOperator", "(*condition).setExpression"} {
+			calls := c.findCalls(fn, setter)
+			if len(calls) != 1 {
+				problems = append(problems, fmt.Sprintf("expected one call of %s, found %d", setter, len(calls)))
+				continue
+			}
+			for _, ret := range c.returnsOf(fn) {
+				if !(calls[0].Block() == ret.Block() || calls[0].Block().Dominates(ret.Block())) {
+					problems = append(problems, c.p.instrPos(ret)+": a return can be reached without "+setter+" having been called (one component not taking makes the constructor drop the others)")
+				}
+			}
+			// the argument offered is the constructor's own
+			okArg := false
+			for _, a := range calls[0].Call.Args[1:] {
+				if p, isP := a.(*ssa.Parameter); isP && p.Parent() == fn {
+					okArg = true
+				}
+			}
+			if !okArg {
+				problems = append(problems, setter+" is not handed the constructor's own argument")
+			}
+		}
+		if len(problems) == 0 {
+			rep.ok("R-CONDSTORE", "newCondition", "every component offered", c.p.pos(fn.Pos()), "setKeyword, setOperator and setExpression are each called with the constructor's argument on every path")
+		} else {
+			sort.Strings(problems)
+			rep.bad("R-CONDSTORE", "newCondition", "every component offered", c.p.pos(fn.Pos()), strings.Join(uniq(problems), "; "))
+		}
+	}
 	// a setter writes its own component and nothing else: a refused argument has no other effect
 	// (no error recorded that would make later, acceptable arguments be refused as well)
 	for _, sw := range []struct{ fn, loc string }{
